@@ -33,10 +33,10 @@ ASSUMPTIONS = [
     "the supplied column is exactly the pandas column the first run returned (dtype as returned)",
     "float 1e-9 relative; ids as partitions; rest exact (dtype kind not compared for the overridden run's descendants)",
 ]
-BUDGET = {"quick": (32, 4), "thorough": (None, 12)}
+BUDGET = {"quick": (32, 4), "thorough": (None, 8)}
 EARLY = 3  # additional strata from 2005-2014 in the quick tier (all of them in the thorough tier)
 GEN = dict(mode="branch", max_households=3)
-K = {"quick": 8, "thorough": 40}
+K = {"quick": 8, "thorough": 20}
 
 
 def group_sum_variants(date):
@@ -95,7 +95,7 @@ def run_with(df, date, supplied: dict, targets, rounding):
 
 
 _IDS = {"fg_id", "bg_id", "eg_id", "ehe_id", "sn_id", "wthh_id"}
-N_PERTURB = {"quick": 3, "thorough": 12}
+N_PERTURB = {"quick": 3, "thorough": 6}
 
 
 def reader(name, src, typ):
